@@ -623,13 +623,34 @@ func c12WUnits(thorough bool) []*explore.Unit {
 func cacheRegionsUnits(thorough bool) []*explore.Unit {
 	var units []*explore.Unit
 	layouts := [][]string{nil, {"m"}, {"b", "m"}, {",", "a", "m\x00"}}
+	type cfg struct {
+		li         int
+		sp         []string
+		concurrent bool
+		// what happened before the prefetch: "" nothing; stale-split / stale-merge: the client
+		// had located the table's regions and the cluster then split / merged them;
+		// meta-transient: hbase:meta refuses the first scans; missing: the table does not exist
+		pre string
+	}
+	var cfgs []cfg
 	for li, sp := range layouts {
 		for _, concurrent := range []bool{false, true} {
-			sp, concurrent := sp, concurrent
+			cfgs = append(cfgs, cfg{li, sp, concurrent, ""})
+		}
+		for _, pre := range []string{"stale-split", "stale-merge", "meta-transient", "missing"} {
+			if pre == "stale-merge" && len(sp) == 0 {
+				continue
+			}
+			cfgs = append(cfgs, cfg{li, sp, false, pre})
+		}
+	}
+	for _, c := range cfgs {
+		{
+			li, sp, concurrent, pre := c.li, c.sp, c.concurrent, c.pre
 			var w *world
 			var errs []error
 			var cacheErr error
-			var scansAfter int
+			var scansAfter, preAttempts int
 			keys := []string{"", "\x00", "+", ",", "a", "b", "c", "m", "m\x00", "z", "\xff"}
 			b := 0
 			if concurrent {
@@ -638,7 +659,15 @@ func cacheRegionsUnits(thorough bool) []*explore.Unit {
 					b = 2
 				}
 			}
-			u := &explore.Unit{Name: fmt.Sprintf("cacheregions|layout=%d|concurrent-get=%v", li, concurrent), Bound: b, Opt: vrt.Options{MaxSteps: 80000}}
+			name := fmt.Sprintf("cacheregions|layout=%d|concurrent-get=%v", li, concurrent)
+			if pre != "" {
+				name += "|pre=" + pre
+			}
+			table := "t"
+			if pre == "missing" {
+				table = "nosuch"
+			}
+			u := &explore.Unit{Name: name, Bound: b, Opt: vrt.Options{MaxSteps: 80000}}
 			u.Body = func() {
 				cl := sim.NewCluster("rs0:1")
 				cl.AddTable("t", sp, []string{"rs1:1"})
@@ -646,6 +675,26 @@ func cacheRegionsUnits(thorough bool) []*explore.Unit {
 				cl.AddTable("s", nil, []string{"rs2:1"})
 				w = newWorld(cl)
 				errs = nil
+				switch pre {
+				case "stale-split", "stale-merge":
+					for _, k := range keys {
+						g, _ := hrpc.NewGetStr(context.Background(), "t", k)
+						if _, err := w.client.Get(g); err != nil {
+							panic("warm-up failed: " + err.Error())
+						}
+					}
+					if pre == "stale-split" {
+						r := cl.Owner("t", []byte("c"))
+						cl.Split(r, "c", "rs1:1", "rs1:1")
+					} else {
+						r1 := cl.Owner("t", []byte(""))
+						r2 := cl.Owner("t", r1.Stop)
+						cl.Merge(r1, r2, "rs1:1")
+					}
+				case "meta-transient":
+					cl.Script["hbase:meta,,1"] = append(cl.Script["hbase:meta,,1"], sim.ClsCallQueue, sim.ClsNSRE)
+				}
+				preAttempts = len(cl.Attempts)
 				fin := make(chan int, 2)
 				n := 1
 				if concurrent {
@@ -660,7 +709,7 @@ func cacheRegionsUnits(thorough bool) []*explore.Unit {
 					})
 				}
 				vrt.GoNamed("h:prefetch", func() {
-					cacheErr = w.client.CacheRegions([]byte("t"))
+					cacheErr = w.client.CacheRegions([]byte(table))
 					vrt.Send(fin, 0)
 				})
 				for i := 0; i < n; i++ {
@@ -689,13 +738,27 @@ func cacheRegionsUnits(thorough bool) []*explore.Unit {
 				if res.Deadlock {
 					return &explore.Finding{Class: "request-blocked", Msg: fmt.Sprintf("%v", res.Blocked)}
 				}
+				if pre == "missing" {
+					if cacheErr != gohbase.TableNotFound {
+						return &explore.Finding{Class: "unknown-table-not-reported", Msg: fmt.Sprintf("CacheRegions of a missing table returned %v", cacheErr)}
+					}
+					if len(errs) > 0 {
+						return &explore.Finding{Class: "request-failed-on-healthy-cluster", Msg: fmt.Sprintf("%v", errs)}
+					}
+					return nil
+				}
 				if cacheErr != nil {
 					return &explore.Finding{Class: "cacheregions-failed", Msg: cacheErr.Error()}
 				}
 				if len(errs) > 0 {
 					return &explore.Finding{Class: "request-failed-on-healthy-cluster", Msg: fmt.Sprintf("%v", errs)}
 				}
-				for _, a := range w.cl.Attempts {
+				// (the regions located before a split / merge are stale by construction: only what
+				// is sent after the prefetch is judged - the prefetch must have replaced them)
+				for _, a := range w.cl.Attempts[preAttempts:] {
+					if pre == "meta-transient" && strings.HasPrefix(a.Region, "hbase:meta") {
+						continue // the scripted refusals of hbase:meta itself
+					}
 					if a.Misrouted() {
 						return &explore.Finding{Class: "request-sent-to-region-or-server-not-owning-the-key", Msg: fmt.Sprintf("%+v", a)}
 					}
